@@ -257,7 +257,9 @@ def default_log_equiv(line, plain, logged):
     logged run may contain more of those queries in a sink-call trace; nothing else may differ"""
     if plain is None or logged is None:
         return plain == logged
-    return _EN_RE.sub("", plain) == _EN_RE.sub("", logged)
+    # (the position of a recorded contract violation is an index into the trace, queries included)
+    norm = lambda x: re.sub(r"\d+:CONTRACT-VIOLATION", "CONTRACT-VIOLATION", _EN_RE.sub("", x))
+    return norm(plain) == norm(logged)
 
 
 class Failure:
